@@ -268,6 +268,9 @@ def main():
     violations = []   # (replay_path, no_input)
     known_hit = []
     evid_path = os.path.join(VERIF, 'evidence', pid + '.json')
+    if os.environ.get('VERIF_REPO') not in (None, '', '/repo'):
+        # a background sweep against another checkout: its evidence does not belong to /repo, keep it out of evidence/
+        evid_path = os.path.join(os.environ.get('VERIF_SCRATCH') or '/tmp', 'evidence-%s.json' % pid)
     os.makedirs(os.path.dirname(evid_path), exist_ok=True)
 
     # ---- 1. proofs
